@@ -63,9 +63,11 @@ fails with the patch.  None was ever committed to `/repo`; `seedall.py` applies 
 property it breaks, and reverts (`git -C /repo checkout -- .`).
 
 Seeds `-1..-3` (48, all properties except C15) arrived while the checks were being built and were used to strengthen them; seeds
-`-4, -5` (32, all sixteen claimed properties, in two later rounds) were first run blind — `seeded/ROUND2_BLIND.md` records that first
-contact: 19 detected, 9 undecided, 4 missed.  Every miss was a gap in what the contracts stated (a clause nobody had written, a
-function of an anchor file not listed for the property); each was closed, and attribution was made to follow the anchor files.  Final state (`seeded/RESULTS.md`, last run of
+`-4..-7` (64, all sixteen claimed properties, in three later rounds; the last round was steered away from the central functions)
+were each first run **blind** against the machinery as it stood — `seeded/ROUND2_BLIND.md` records every first contact: 44
+detected, 15 undecided, 5 missed (4 of the first 32, 1 of the last 32).  Every miss was a gap in what the contracts stated (a
+clause nobody had written, a function of an anchor file not listed for the property, a function not under contract); each was
+closed by adding the clause, and attribution was made to follow the anchor files.  Final state (`seeded/RESULTS.md`, last run of
 `seedall.py`): **{len(det)} of {len(seeds)} detected, {len(und)} undecided (exit 2), {len(mis)} missed**.
 
 | seed | outcome | failed obligations (first three) or reason |
